@@ -131,7 +131,9 @@ func safeModeSweep(c *Ctx, targeted []string, each func(cf Cfg, it docItem, out 
 	if c.Quick() {
 		parserModelCases(c, items, 6000)
 		gfmModelCases(c, items, 3000)
+		otherModelCases(c, items, 500)
 	} else {
+		otherModelCases(c, items, 20000)
 		parserModelCases(c, items, 60000)
 		gfmModelCases(c, items, 30000)
 	}
